@@ -728,7 +728,7 @@ impl<'l, Data> EventLoop<'l, Data> {
     {
         let timeout = timeout.into();
         self.signals.stop.store(false, Ordering::Release);
-        while !self.signals.stop.load(Ordering::Acquire) {
+        while !self.signals.stop.load(Ordering::SeqCst) {
             #[cfg(calloop_verif)]
             crate::verif::yield_point(crate::verif::Site::RunIterPre);
             self.dispatch(timeout, data)?;
@@ -759,7 +759,7 @@ impl<'l, Data> EventLoop<'l, Data> {
         impl Wake for EventLoopWaker {
             fn wake(self: Arc<Self>) {
                 // Set the waker.
-                self.0.signal.future_ready.store(true, Ordering::Release);
+                self.0.signal.future_ready.store(true, Ordering::SeqCst);
                 #[cfg(calloop_verif)]
                 crate::verif::yield_point(crate::verif::Site::BoWakeMid);
                 self.0.notifier.notify().ok();
@@ -767,7 +767,7 @@ impl<'l, Data> EventLoop<'l, Data> {
 
             fn wake_by_ref(self: &Arc<Self>) {
                 // Set the waker.
-                self.0.signal.future_ready.store(true, Ordering::Release);
+                self.0.signal.future_ready.store(true, Ordering::SeqCst);
                 #[cfg(calloop_verif)]
                 crate::verif::yield_point(crate::verif::Site::BoWakeMid);
                 self.0.notifier.notify().ok();
@@ -791,11 +791,11 @@ impl<'l, Data> EventLoop<'l, Data> {
         self.signals.stop.store(false, Ordering::Release);
         self.signals.future_ready.store(true, Ordering::Release);
 
-        while !self.signals.stop.load(Ordering::Acquire) {
+        while !self.signals.stop.load(Ordering::SeqCst) {
             #[cfg(calloop_verif)]
             crate::verif::yield_point(crate::verif::Site::RunIterPre);
             // If the future is ready to be polled, poll it.
-            if self.signals.future_ready.swap(false, Ordering::AcqRel) {
+            if self.signals.future_ready.swap(false, Ordering::SeqCst) {
                 #[cfg(calloop_verif)]
                 crate::verif::yield_point(crate::verif::Site::BoSwapPost);
                 // Poll the future and break the loop if it's ready.
@@ -913,7 +913,7 @@ impl LoopSignal {
     pub fn stop(&self) {
         #[cfg(calloop_verif)]
         crate::verif::yield_point(crate::verif::Site::StopPre);
-        self.signal.stop.store(true, Ordering::Release);
+        self.signal.stop.store(true, Ordering::SeqCst);
         #[cfg(calloop_verif)]
         crate::verif::yield_point(crate::verif::Site::StopPost);
     }
